@@ -126,10 +126,15 @@ def _constructed_commands(prog, seen):
     """Command variants constructed (aggregate) in harness files; None if a harness parses commands from bytes (then: all)"""
     out = set()
     parses = False
+    direct = set()
     for x in seen:
         f = prog.fns[x]
         if not is_harness(f):
             continue
+        for b, t in f.calls(reachable_only=False):
+            c = prog.local_callee(f, t)
+            if c is not None and not is_harness(c):
+                direct.add(c.id)
         for b, i, st in f.stmts():
             rv = st["rv"]
             if rv["k"] == "agg" and rv["n"].startswith("redis::command::Command::"):
@@ -137,14 +142,19 @@ def _constructed_commands(prog, seen):
         for b, t in f.calls():
             if is_callee(t, r"Command>::from_resp(_zero_copy)?$", r"Command::from_resp"):
                 parses = True
-    return out, parses
+    return out, parses, direct
 
 
 def _cond_ok(fid, built):
-    cmds, parses = built
+    """side condition of a conditional exception: no harness builds the command that leads there, and no harness calls the function
+    itself (a DST harness that drives the data structure directly reaches the hash-order pick without any Command)"""
+    cmds, parses, direct = built
     for pat, variant in COND_COMMANDS.items():
         if re.search(pat, fid):
-            return variant not in cmds
+            # the dispatcher itself is of course called by every harness: for it only the constructed variant counts
+            if pat.endswith("execute$"):
+                return variant not in cmds
+            return variant not in cmds and not any(re.search(pat, d) for d in direct)
     return True
 
 
@@ -244,6 +254,19 @@ def _r203(ck, prog, cfg, seen, built):
                 cond = _cond_ok(fid, built)
                 if "sort call exists" in exc:
                     cond = any(is_callee(t, *hashorder.SORT) for g in [f] + prog.children(f) for _, t in g.calls())
+                if cond and r["kind"] == "vec-in-hash-order" and r.get("returned"):
+                    # the order of the returned Vec is accepted as unobservable - which stops being true the moment a harness-reachable
+                    # caller lets it meet the seeded RNG (one draw per element lands on a different element in every process)
+                    for y in sorted(seen):
+                        g = prog.fns[y]
+                        for ln, what in _rng_over_result(prog, g, f):
+                            cond = False
+                            ck.bad("R20.3", "%s:rng-per-element-of:%s%s" % (re.sub(r"\{closure#\d+\}", "{closure}", g.id), f.short, _tag(cfg)),
+                                   "%s returns its elements in hash order (accepted while nothing observes the order), and %s %s over that "
+                                   "result: the k-th draw of the seeded RNG meets a different element in every process, so the same seed "
+                                   "drops/picks different elements and the runs diverge" % (f.short, g.short, what), g.where(ln))
+                    if not cond:
+                        continue
                 if cond:
                     ck.ok("R20.3", key, "accepted: " + exc)
                     continue
@@ -386,3 +409,40 @@ def _r206(ck, prog, cfg, seen):
                    % (name, f.short, " <- ".join(_path(seen, fid))), f.where())
     ck.floor("R20.6-tls" + _tag(cfg), ntls, 1)
     ck.ok("R20.6", "scan" + _tag(cfg), "%d static/thread-local references in %d reachable functions" % (n, len(seen)))
+
+
+def _rng_over_result(prog, g, f):
+    """[(line, what)] where g iterates the Vec returned by f (possibly through a spliced-in helper) and draws from the seeded RNG per element"""
+    out = []
+    calls = [(b, t) for b, t in g.calls() if prog.local_callee(g, t) is f and "p" not in t["dest"]]
+    if not calls:
+        return out
+    dests = {t["dest"]["l"] for _, t in calls}
+
+    def from_f(term):
+        cur = term
+        for _ in range(8):
+            if not cur["args"]:
+                return False
+            sv = src_of_operand(g, cur["args"][0], through_calls=TRANSPARENT + (r"Deref>::deref$",))
+            if sv.kind == "call" and sv.term["dest"].get("l") in dests and prog.local_callee(g, sv.term) is f:
+                return True
+            if sv.kind != "call":
+                return sv.local in dests
+            cur = sv.term
+        return False
+    for b, t in g.calls():
+        if is_callee(t, r"Iterator>?::(filter|filter_map|map|for_each|any|all|find|position|take_while|skip_while|retain|inspect|partition)(::<.*>)?$", r"Vec::<.*>::retain(::<.*>)?$") and len(t["args"]) > 1:
+            cl = src_of_operand(g, t["args"][1], through_calls=TRANSPARENT)
+            kid = prog.fns.get(cl.rv.get("n")) if cl.kind == "agg" else None
+            if kid is not None and hashorder._draws_rng(prog, kid, 0, set()) and from_f(t):
+                out.append((t["ln"], "draws from the seeded RNG once per element (in the closure of `%s`)" % callee(t).rsplit("::", 1)[-1].split("<")[0]))
+    heads = lib2.loop_heads(g)
+    for h, (none_t, some_t, nb) in heads.items():
+        if not from_f(g.term(nb)) and not from_f({"args": [g.term(nb)["args"][0]]} if g.term(nb)["args"] else {"args": []}):
+            continue
+        body = {some_t} | g.reach([some_t], avoid=[h])
+        for sk in hashorder._body_sinks(prog, g, body, True):
+            if sk["kind"] == "rng-draw":
+                out.append((sk["ln"], sk["what"]))
+    return out
